@@ -33,6 +33,11 @@ Offs == {"origin", "neg", "far", "x0", "y0"}
 Ress == {1, 7, 10, 13, 20, 25, 50, 70, 200}
 Cases(kind) == UNION { {[op |-> "segmented", kind |-> kind, off |-> o, m |-> m, r |-> r] : o \in Offs, m \in {1, 2}, r \in Ress},
                        {[op |-> op, kind |-> kind, off |-> o, m |-> 1, r |-> r] : op \in {"to_crs_family"}, o \in Offs, r \in {0, 7, 25}},
+                       \* edges many thousand times longer than the resolution (m = 400: edges of 2800 .. 16000 units, r = 1 or 2): too many vertices to list,
+                       \* the harness reports per path the number of vertices, the largest squared gap and whether all lie on the path in order
+                       IF kind \in {"line", "polygon"} THEN {[op |-> "segmented_long", kind |-> kind, off |-> o, m |-> 400, r |-> r] : o \in {"origin", "far"}, r \in {1, 2}} ELSE {},
+                       \* geographic to geographic (a datum change): a requested densification step is honoured like anywhere else
+                       {[op |-> "to_crs_real", kind |-> kind, off |-> "origin", m |-> 1, r |-> r, pair |-> "4326>4258", prior |-> "none", wrap |-> FALSE] : r \in {0, 20, -1}},
                        \* the source's own CRS in another spelling: the SAME object comes back - also when a densification step (r > 0; -1: "auto") was asked for
                        {[op |-> op, kind |-> kind, off |-> o, m |-> 1, r |-> r] : op \in {"to_crs_same_spelling", "to_crs_no_crs"}, o \in {"origin", "far"}, r \in {0, 7, -1}},
                        \* prior: what the process did with this CRS pair before (the transformer cache is keyed by pair and axis-order flag;
